@@ -620,6 +620,24 @@ fn op_stdcheck(_req: &J) -> J {
             out.push(format!("swap {:?}", w));
         }
     }
+    {
+        use itertools::Itertools;
+        let lists: [&[i64]; 5] = [&[], &[1], &[1, 1, 2, 2, 1], &[1, 3, 5], &[2, 2, 4, 9]];
+        for a in lists {
+            for b in lists {
+                out.push(format!("merge {:?}", a.iter().merge(b.iter()).collect::<Vec<_>>()));
+                out.push(format!("merge_by {:?}", a.iter().merge_by(b.iter(), |x, y| x >= y).collect::<Vec<_>>()));
+                out.push(format!("interleave {:?}", a.iter().interleave(b.iter()).collect::<Vec<_>>()));
+            }
+            out.push(format!("it_dedup {:?}", a.iter().dedup().collect::<Vec<_>>()));
+            out.push(format!("unique {:?}", a.iter().unique().collect::<Vec<_>>()));
+            out.push(format!("intersperse {:?}", a.iter().copied().intersperse(0).collect::<Vec<_>>()));
+            out.push(format!("tuple_windows {:?}", a.iter().copied().tuple_windows::<(i64, i64)>().collect::<Vec<_>>()));
+            out.push(format!("all_equal {:?}", a.iter().all_equal()));
+            out.push(format!("sorted {:?}", a.iter().rev().sorted().collect::<Vec<_>>()));
+            out.push(format!("join {:?}", a.iter().map(|x| format!("s{}", x)).join("-")));
+        }
+    }
     let r: Result<i64, i64> = Ok(3);
     let e: Result<i64, i64> = Err(4);
     out.push(format!("result {:?} {:?} {:?} {:?} {:?} {:?} {:?} {:?}", r.and(e), e.and(r), r.or(e), e.or(r), r.map_or(9, |x| x + 1), e.map_or(9, |x| x + 1), r.is_ok_and(|x| x == 3), e.is_err_and(|x| x == 5)));
